@@ -17,6 +17,9 @@ R2.5 _offset flushes what it visits: the per-node `f._cache.clear()` dominates b
      the zero-delta early return is preceded by a full _touchall().
 R2.6 a text splice that does not offset (`_put_src` with `tail` left at its default) on the live tree is followed on every normal
      path by a flush of the receiver's ancestors (`_touchall(True, ...)` or a helper that clears every ancestor unconditionally).
+R2.7 a direct store into the live line list of the tree of `self` (outside _put_src and the indent rewriters, which flush through
+     _offset_lns) happens with the memo of `self` known empty or is followed by a flush on every normal path: pars() / bloc are
+     computed from the text around a node, so changing text without touching leaves them stale.
 Not decided: equality of loc / pars / own_src / navigation answers with a fresh parse (value level); whether a range flush
 (_offset from the root) actually reaches a given node (depends on positions) — R2.1 accepts a range flush as covering.
 """
@@ -925,6 +928,94 @@ def check_unsynced_put(ctx, res):
         raise AnalysisError(f'only {n} non-offsetting splices on self found')
 
 
+R27_REVIEWED = {
+    ('fst', 'FST.strip'):
+        'root only; removes text outside the (parenthesised) extent of the root node: no cached loc / pars / bloc of any node reaches into it '
+        '(probed on statement, block and expression roots with populated memos)',
+    ('fst_get_slice', '_fix_naked_expr'):
+        'rewrites a line that holds nothing but whitespace and a line continuation (the regex matched the whole prefix); no node text, no '
+        'parenthesis, no comment on it',
+    ('fst_misc', '_maybe_add_line_continuations'):
+        'only end-of-line trivia after the last expression column changes (comment removed / continuation added); pars() skips comments and '
+        'continuations alike and bloc of expression nodes equals loc',
+    ('fst_misc', '_fix_undelimited_seq'):
+        'a space inside the extent of the empty sequence is overwritten by its own delimiter: positions and grouping-parenthesis count of '
+        'every node are unchanged',
+}
+
+
+def check_direct_text_stores(ctx):
+    ctx.rule('R2.7', 'a direct store into the live line list of the tree of `self` is covered by a flush of `self`', 6)
+    exempt = {'_put_src', '_indent_lns', '_dedent_lns', '_redent_lns'}
+    n = 0
+    for fi in ctx.repo.all_funcs():
+        if isinstance(fi.node, ast.Lambda) or fi.module in SKIP_MODULES | {'common', 'astutil', 'code'} or fi.name in exempt:
+            continue
+        if 'self' not in fi.params()[:1]:
+            continue
+        binds = {}
+        for t, v in _assign_pairs(fi.node):
+            if isinstance(t, ast.Name):
+                binds.setdefault(t.id, []).append(v)
+        roots = {'self'} | {k for k, vs in binds.items() if all(isinstance(v, ast.Attribute) and v.attr == 'root' and norm(v.value) == 'self' for v in vs)}
+        live = {k for k, vs in binds.items()
+                if all(isinstance(v, ast.Attribute) and v.attr == '_lines' and
+                       (norm(v.value) in roots or (isinstance(v.value, ast.Attribute) and v.value.attr == 'root' and norm(v.value.value) == 'self')) for v in vs)}
+        if not live:
+            continue
+        stores = []
+        for x in walk_no_nested(fi.node):
+            tg = []
+            if isinstance(x, ast.Assign):
+                tg = x.targets
+            elif isinstance(x, ast.AugAssign):
+                tg = [x.target]
+            elif isinstance(x, ast.Delete):
+                tg = x.targets
+            for t in tg:
+                for tt in (t.elts if isinstance(t, ast.Tuple) else [t]):
+                    if isinstance(tt, ast.Subscript) and isinstance(tt.value, ast.Name) and tt.value.id in live:
+                        stores.append(x)
+            if isinstance(x, ast.Call) and isinstance(x.func, ast.Attribute) and x.func.attr in ('insert', 'append', 'extend', 'pop') and \
+                    isinstance(x.func.value, ast.Name) and x.func.value.id in live:
+                stores.append(x)
+        if not stores:
+            continue
+        cfg = CFG(fi.node)
+        etext, own = 'self.a', {'self', 'self.a.f'}
+        events = {nd.id: node_events(cfg, nd, etext, own, set()) for nd in cfg.nodes}
+        # removing / inserting whole lines changes the extent of the root (whole-source location) rather than the text next to `self`:
+        # there a flush of the root alias covers it
+        own_root = own | (roots - {'self'}) | {'self.root'}
+        events_root = {nd.id: node_events(cfg, nd, etext, own_root, set()) for nd in cfg.nodes}
+        # any flush of the tree (root-level touchall / offset of anything) counts as covering `self`
+        for nd in cfg.nodes:
+            for x in subnodes(cfg, nd):
+                if isinstance(x, ast.Call) and call_name(x) in ('_touchall', '_offset_lns', '_reparse_docstr_Constants'):
+                    events[nd.id].add('cflush')
+                    events_root[nd.id].add('cflush')
+        seen = set()
+        for st in stores:
+            for nd in cfg.nodes:
+                if nd.id in seen or not any(x is st for x in subnodes(cfg, nd)):
+                    continue
+                seen.add(nd.id)
+                n += 1
+                whole_lines = isinstance(st, (ast.Delete, ast.Call))
+                ins = store_flow(cfg, events_root if whole_lines else events, nd.id, own_root if whole_lines else own)
+                if ins.get(nd.id) is None:
+                    continue
+                ex = ins.get(cfg.exit)
+                ok = ex is None or not (ex[2] or ex[3] or ex[4])
+                rv = R27_REVIEWED.get((fi.module, fi.qualname.split('[')[0]))
+                ctx.check('R2.7', ok or bool(rv), fi.module, fi.qualname, norm(st, 70),
+                          'source text of the live tree is rewritten in place with no flush of the node being worked on: its cached pars() / '
+                          'bloc were computed from the old text', st.lineno,
+                          sample={'function': fi.key, 'store': norm(st, 70), 'reviewed': rv})
+    if n < 6:
+        raise AnalysisError(f'only {n} direct live-line stores found')
+
+
 def run(ctx):
     ctx.not_decided += ['equality of loc / bloc / pars / own_src / navigation / view answers with a fresh parse of the current source',
                         'whether a position-driven range flush (_offset from the root) reaches a particular node',
@@ -938,3 +1029,4 @@ def run(ctx):
     check_views(ctx)
     check_offset_walk(ctx)
     check_unsynced_put(ctx, res)
+    check_direct_text_stores(ctx)
